@@ -4,7 +4,7 @@ C11 — Belief containers keep their declared shape consistent with their storag
 
 Theorems about the executable model `BFL.Shape` (BFL/Model/Shape.lean) of `GaussianMixture`,
 `Gaussian` and `ParticleSet`: for every operation sequence of every length, every layout
-(any component count ≥ 1, any linear/circular/noise size, Euler and quaternion) and every scalar
+(any component count ≥ 0 — `augmentWithNoise` needs ≥ 1 —, any linear/circular/noise size, Euler and quaternion) and every scalar
 type.  `WF` is the agreement the property states; contents are `Option α` cells (`none` =
 unspecified), so every equation below is between specified-or-unspecified cells and says in
 particular that a specified cell stays specified with the same value.
@@ -21,11 +21,12 @@ variable {α : Type}
 
 /-! ### Well-formedness is an invariant of every operation sequence -/
 
-/-- Every constructor overload of the three classes yields a well-formed container. -/
-theorem wf_ctor [One α] [Div α] [NatCast α] (kind : Kind) (k l c d : Nat) (q : Bool) (hk : 1 ≤ k) :
+/-- Every constructor overload of the three classes yields a well-formed container, for every
+    component count including 0. -/
+theorem wf_ctor [One α] [Div α] [NatCast α] (kind : Kind) (k l c d : Nat) (q : Bool) :
     WF (ctorDefault kind : Container α) ∧ WF (ctorDim kind k d : Container α) ∧
     WF (ctorLayout kind k l c q : Container α) :=
-  ⟨wf_ctorDefault kind, wf_ctorDim kind k d hk, wf_ctorLayout kind k l c q hk⟩
+  ⟨wf_ctorDefault kind, wf_ctorDim kind k d, wf_ctorLayout kind k l c q⟩
 
 /-- Each operation (construction, copy, base-class copy, the three `resize`s, noise augmentation with
     any matrix, `+=`, `+`, element writes, fills) keeps every live object well-formed. -/
@@ -193,12 +194,14 @@ theorem augment_nonsquare_unchanged [Zero α] (x : Container α) (qr qc : Nat) (
   augment_nonsquare x qr qc q h
 
 /-- General form (`Q` given as cells, possibly read from the object itself).
-    `augmentWithNoise(Q)` with an `a × a` matrix on a well-formed container (which may already
+    `augmentWithNoise(Q)` with an `a × a` matrix on a well-formed container with at least one
+    component (necessary: `augment_zero_components_counterexample`; the container may already
     carry noise from earlier augmentations): no assertion, returns `true`; the noise, total and
     covariance sizes grow by `a`, nothing else changes in the layout; every component's mean is
     `[m; 0]` and every component's covariance is `blockdiag(P, Q)` — `P` being the whole previous
     covariance block; weights and particle states are not touched. -/
-theorem augmentO_mean_cov [Zero α] (x : Container α) (h : WF x) (a : Nat) (q : Nat → Nat → Option α) :
+theorem augmentO_mean_cov [Zero α] (x : Container α) (h : WF x) (hk : 1 ≤ x.components) (a : Nat)
+    (q : Nat → Nat → Option α) :
     ∃ y, augmentO x a a q = some (y, true) ∧ WF y ∧
       y.components = x.components ∧ y.kind = x.kind ∧ y.useQuaternion = x.useQuaternion ∧
       y.dimCircularComponent = x.dimCircularComponent ∧ y.dimLinear = x.dimLinear ∧
@@ -215,7 +218,7 @@ theorem augmentO_mean_cov [Zero α] (x : Container α) (h : WF x) (a : Nat) (q :
           y.cov.get (x.dimCovariance + r) ((covBlock y i).1 + c) = some 0) ∧
         (∀ r c, r < a → c < a →
           y.cov.get (x.dimCovariance + r) ((covBlock y i).1 + (x.dimCovariance + c)) = q r c)) := by
-  obtain ⟨m2, hm2, he⟩ := augmentO_square x a q h.meanCols
+  obtain ⟨m2, hm2, he⟩ := augmentO_square x a q h.meanCols (by omega)
   have hwf : WF (augmented x a q m2) := wf_augmentO x h a a q _ true he
   refine ⟨augmented x a q m2, he, hwf, rfl, rfl, rfl, rfl, rfl, rfl, rfl, rfl, rfl, rfl, rfl, ?_⟩
   intro i hi
@@ -232,12 +235,14 @@ theorem augmentO_mean_cov [Zero α] (x : Container α) (h : WF x) (a : Nat) (q :
   · intro r c hr hc; rw [e]; exact c3 r c hr hc
   · intro r c hr hc; rw [e, ← Nat.add_assoc]; exact c4 r c hr hc
 
-/-- `augmentWithNoise(Q)` with an `a × a` matrix on a well-formed container (which may already
+/-- `augmentWithNoise(Q)` with an `a × a` matrix on a well-formed container with at least one
+    component (necessary: `augment_zero_components_counterexample`; the container may already
     carry noise from earlier augmentations): no assertion, returns `true`; the noise, total and
     covariance sizes grow by `a`, nothing else changes in the layout; every component's mean is
     `[m; 0]` and every component's covariance is `blockdiag(P, Q)` — `P` being the whole previous
     covariance block; weights and particle states are not touched. -/
-theorem augment_mean_cov [Zero α] (x : Container α) (h : WF x) (a : Nat) (q : Nat → Nat → α) :
+theorem augment_mean_cov [Zero α] (x : Container α) (h : WF x) (hk : 1 ≤ x.components) (a : Nat)
+    (q : Nat → Nat → α) :
     ∃ y, augment x a a q = some (y, true) ∧ WF y ∧
       y.components = x.components ∧ y.kind = x.kind ∧ y.useQuaternion = x.useQuaternion ∧
       y.dimCircularComponent = x.dimCircularComponent ∧ y.dimLinear = x.dimLinear ∧
@@ -254,10 +259,11 @@ theorem augment_mean_cov [Zero α] (x : Container α) (h : WF x) (a : Nat) (q : 
           y.cov.get (x.dimCovariance + r) ((covBlock y i).1 + c) = some 0) ∧
         (∀ r c, r < a → c < a →
           y.cov.get (x.dimCovariance + r) ((covBlock y i).1 + (x.dimCovariance + c)) = some (q r c))) :=
-  augmentO_mean_cov x h a (fun r c => some (q r c))
+  augmentO_mean_cov x h hk a (fun r c => some (q r c))
 
 /-- A second augmentation: `blockdiag(P, Q₁, Q₂)` and means `[m; 0; 0]` for every component. -/
-theorem augment_twice [Zero α] (x : Container α) (h : WF x) (a b : Nat) (q1 q2 : Nat → Nat → α) :
+theorem augment_twice [Zero α] (x : Container α) (h : WF x) (hk : 1 ≤ x.components) (a b : Nat)
+    (q1 q2 : Nat → Nat → α) :
     ∃ y z, augment x a a q1 = some (y, true) ∧ augment y b b q2 = some (z, true) ∧ WF z ∧
       z.components = x.components ∧ z.dimNoise = x.dimNoise + a + b ∧ z.dim = x.dim + a + b ∧
       z.dimCovariance = x.dimCovariance + a + b ∧
@@ -279,8 +285,8 @@ theorem augment_twice [Zero α] (x : Container α) (h : WF x) (a b : Nat) (q1 q2
           z.cov.get (x.dimCovariance + r) ((covBlock z i).1 + (x.dimCovariance + a + c)) = some 0) ∧
         (∀ r c, r < b → c < a →
           z.cov.get (x.dimCovariance + a + r) ((covBlock z i).1 + (x.dimCovariance + c)) = some 0)) := by
-  obtain ⟨y, hy, hwy, yk, _, _, _, _, _, yn, yd, ydc, _, _, hyc⟩ := augment_mean_cov x h a q1
-  obtain ⟨z, hz, hwz, zk, _, _, _, _, _, zn, zd, zdc, _, _, hzc⟩ := augment_mean_cov y hwy b q2
+  obtain ⟨y, hy, hwy, yk, _, _, _, _, _, yn, yd, ydc, _, _, hyc⟩ := augment_mean_cov x h hk a q1
+  obtain ⟨z, hz, hwz, zk, _, _, _, _, _, zn, zd, zdc, _, _, hzc⟩ := augment_mean_cov y hwy (by rw [yk]; exact hk) b q2
   refine ⟨y, z, hy, hz, hwz, by rw [zk, yk], by rw [zn, yn], by rw [zd, yd], by rw [zdc, ydc], ?_⟩
   intro i hi
   obtain ⟨ym1, ym2, yc1, yc2, yc3, yc4⟩ := hyc i hi
@@ -392,7 +398,8 @@ theorem concat_equal_layout (x rhs : Container α) (hx : WF x) (hr : WF rhs) (hx
 
 /-- A legal step never trips an assertion: on a pool of well-formed objects the only operations the
     model stops at are a concatenation whose operands `concat_requires` refuses, element writes outside
-    the storage, and `augmentWithNoise(covariance(i))` with `i` not a component. -/
+    the storage, `augmentWithNoise(covariance(i))` with `i` not a component, and `augmentWithNoise` with
+    a square matrix on a container with 0 components. -/
 theorem step_assert_only_on_misuse [Zero α] [One α] [Div α] [NatCast α] (p : Pool α) (hp : PoolWF p) (op : Op α)
     (h : step p op = Outcome.assert) :
     (∃ d s x r, op = Op.concatAssign d s ∧ p d = some x ∧ p s = some r ∧ concat x r = none) ∨
@@ -402,7 +409,8 @@ theorem step_assert_only_on_misuse [Zero α] [One α] [Div α] [NatCast α] (p :
       ¬ (j < x.cov.rows ∧ x.dimCovariance * i + k < x.cov.cols)) ∨
     (∃ s i v x, op = Op.writeWeight s i v ∧ p s = some x ∧ ¬ (i < x.weight.rows ∧ 0 < x.weight.cols)) ∨
     (∃ s i j v x, op = Op.writeState s i j v ∧ p s = some x ∧ ¬ (j < x.state.rows ∧ i < x.state.cols)) ∨
-    (∃ s i x, op = Op.augmentSelf s i ∧ p s = some x ∧ ¬ i < x.components) := by
+    (∃ s i x, op = Op.augmentSelf s i ∧ p s = some x ∧ ¬ i < x.components) ∨
+    (∃ s qr qc q x, op = Op.augment s qr qc q ∧ p s = some x ∧ x.components = 0 ∧ qr = qc) := by
   have onSlot_assert : ∀ {s : Nat} {ok : Container α → Bool} {f : Container α → Option (Container α)},
       onSlot p s ok f = Outcome.assert → ∃ x, p s = some x ∧ f x = none := by
     intro s ok f hh
@@ -416,8 +424,8 @@ theorem step_assert_only_on_misuse [Zero α] [One α] [Div α] [NatCast α] (p :
       · next hf => exact ⟨x, hx, hf⟩
   cases op with
   | ctorDefault dst kind init => simp [step] at h
-  | ctorDim dst kind k d init => simp only [step] at h; split_ifs at h
-  | ctorLayout dst kind k l c q init => simp only [step] at h; split_ifs at h
+  | ctorDim dst kind k d init => simp [step] at h
+  | ctorLayout dst kind k l c q init => simp [step] at h
   | copy dst src => simp only [step] at h; split at h <;> cases h
   | slice dst src => simp only [step] at h; split at h <;> cases h
   | resize s k l c =>
@@ -431,14 +439,18 @@ theorem step_assert_only_on_misuse [Zero α] [One α] [Div α] [NatCast α] (p :
   | augment s qr qc q =>
     simp only [step] at h
     obtain ⟨x, hx, hf⟩ := onSlot_assert h
-    exfalso
+    right; right; right; right; right; right; right
     have hw := hp s x hx
     by_cases hsq : qr = qc
-    · subst hsq
-      obtain ⟨y, hy, _⟩ := augment_mean_cov x hw qr q
-      rw [hy] at hf
-      cases hf
-    · rw [augment_nonsquare x qr qc q hsq] at hf
+    · by_cases hk : x.components = 0
+      · exact ⟨s, qr, qc, q, x, rfl, hx, hk, hsq⟩
+      · exfalso
+        subst hsq
+        obtain ⟨y, hy, _⟩ := augment_mean_cov x hw (by omega) qr q
+        rw [hy] at hf
+        cases hf
+    · exfalso
+      rw [augment_nonsquare x qr qc q hsq] at hf
       cases hf
   | concatAssign dst src =>
     left
@@ -489,7 +501,7 @@ theorem step_assert_only_on_misuse [Zero α] [One α] [Div α] [NatCast α] (p :
     intro hc
     simp [writeState, Sto.write, hc] at hf
   | augmentSelf s i =>
-    right; right; right; right; right; right
+    right; right; right; right; right; right; left
     simp only [step] at h
     obtain ⟨x, hx, hf⟩ := onSlot_assert h
     refine ⟨s, i, x, rfl, hx, ?_⟩
@@ -497,7 +509,7 @@ theorem step_assert_only_on_misuse [Zero α] [One α] [Div α] [NatCast α] (p :
     have hw := hp s x hx
     have hr := covBlock_in_range x hw i hi
     simp only [covBlock] at hr
-    obtain ⟨y, hy, _⟩ := augmentO_mean_cov x hw x.dimCovariance (fun r c => x.cov.get r (x.dimCovariance * i + c))
+    obtain ⟨y, hy, _⟩ := augmentO_mean_cov x hw (by omega) x.dimCovariance (fun r c => x.cov.get r (x.dimCovariance * i + c))
     simp only [augmentSelf, if_pos hr, hw.covRows, hy] at hf
     cases hf
   | move dst src =>
@@ -539,7 +551,7 @@ theorem augment_self [Zero α] (x : Container α) (h : WF x) (i : Nat) (hi : i <
   have hr := covBlock_in_range x h i hi
   simp only [covBlock] at hr
   obtain ⟨y, hy, hw, hk, _, _, _, _, _, hn, hd, hdc, _, _, hc⟩ :=
-    augmentO_mean_cov x h x.dimCovariance (fun r c => x.cov.get r (x.dimCovariance * i + c))
+    augmentO_mean_cov x h (by omega) x.dimCovariance (fun r c => x.cov.get r (x.dimCovariance * i + c))
   refine ⟨y, by simp only [augmentSelf, if_pos hr, h.covRows, hy], hw, hk, hn, hd, hdc, ?_⟩
   intro j hj
   obtain ⟨m1, m2, c1, c2, c3, c4⟩ := hc j hj
@@ -571,12 +583,12 @@ theorem base_assign [Zero α] [One α] [Div α] [NatCast α] (p : Pool α) (dst 
   refine ⟨p.set dst { r with kind := x.kind, state := x.state }, { r with kind := x.kind, state := x.state },
     by simp only [step, hx, hr], by simp [Pool.set],
     rfl, rfl, rfl, rfl, rfl, rfl, rfl, rfl, rfl, rfl, rfl, rfl, ?_⟩
-  obtain ⟨hpos, hdcc, hdim, hdcov, hmr, hmc, hcr, hcc, hwr', hwc, _, _, _⟩ := hwr
+  obtain ⟨hdcc, hdim, hdcov, hmr, hmc, hcr, hcc, hwr', hwc, _, _, _⟩ := hwr
   constructor
   · intro hy
     exact ⟨fun hk => ⟨hy.stateRows hk, hy.stateCols hk⟩, fun hk => hy.gaussian hk⟩
   · intro hd
-    exact ⟨hpos, hdcc, hdim, hdcov, hmr, hmc, hcr, hcc, hwr', hwc, fun hk => (hd.1 hk).1, fun hk => (hd.1 hk).2,
+    exact ⟨hdcc, hdim, hdcov, hmr, hmc, hcr, hcc, hwr', hwc, fun hk => (hd.1 hk).1, fun hk => (hd.1 hk).2,
       fun hk => hd.2 hk⟩
 
 /-- The discipline is necessary (1): the inherited `GaussianMixture::resize` applied to a `Gaussian`
@@ -626,6 +638,89 @@ theorem resize_nonconservative_contents (s : Sto α) (r c : Nat) (init : Option 
   · intro h; simp only [Sto.resizeNC, if_neg h]; rw [Sto.fresh_get, if_pos ⟨hi, hj⟩]
   · intro h; simp only [Sto.resizeNC, if_pos h]; rw [Sto.build_get, if_pos ⟨hi, hj⟩]
 
+/-! ### Zero components -/
+
+/-- `GaussianMixture(0, …)`, `ParticleSet(0, …)` and `resize(0, …)` of a mixture or particle set yield a
+    well-formed container with 0 components: `dim × 0` means, `dim_covariance × 0` covariances, no
+    weights, a `(dim − dim_noise) × 0` particle state (empty storage of the declared row counts). -/
+theorem zero_components_wf [One α] [Div α] [NatCast α] (kind : Kind) (hkind : kind ≠ Kind.gaussian)
+    (l c d : Nat) (q : Bool) (x : Container α) (hx : WF x) (hxk : x.kind ≠ Kind.gaussian) :
+    (∀ a : Container α, a = ctorLayout kind 0 l c q ∨ a = ctorDim kind 0 d ∨ a = resize x 0 l c →
+      WF a ∧ a.components = 0 ∧ a.mean.rows = a.dim ∧ a.mean.cols = 0 ∧ a.cov.rows = a.dimCovariance ∧
+      a.cov.cols = 0 ∧ a.weight.rows = 0 ∧ (a.kind = Kind.ps → a.state.rows = a.dim - a.dimNoise ∧ a.state.cols = 0)) := by
+  have key : ∀ a : Container α, WF a → a.components = 0 →
+      WF a ∧ a.components = 0 ∧ a.mean.rows = a.dim ∧ a.mean.cols = 0 ∧ a.cov.rows = a.dimCovariance ∧
+      a.cov.cols = 0 ∧ a.weight.rows = 0 ∧ (a.kind = Kind.ps → a.state.rows = a.dim - a.dimNoise ∧ a.state.cols = 0) := by
+    intro a ha h0
+    refine ⟨ha, h0, ha.meanRows, by rw [ha.meanCols, h0], ha.covRows, by rw [ha.covCols, h0, Nat.mul_zero],
+      by rw [ha.weightRows, h0], fun hk => ⟨ha.stateRows hk, by rw [ha.stateCols hk, h0]⟩⟩
+  intro a ha
+  rcases ha with rfl | rfl | rfl
+  · refine key _ (wf_ctorLayout kind 0 l c q) ?_
+    cases kind <;> first | rfl | exact absurd rfl hkind
+  · refine key _ (wf_ctorDim kind 0 d) ?_
+    cases kind <;> first | rfl | exact absurd rfl hkind
+  · exact key _ (wf_resize x hx 0 l c hxk) (resize_components_eq x 0 l c)
+
+/-- On a container with 0 components `augmentWithNoise` with a square matrix does not complete
+    (`components - 1` wraps around): the model's step is an assertion, whatever the matrix. -/
+theorem augment_zero_components [Zero α] (x : Container α) (h0 : x.components = 0) (a : Nat) (q : Nat → Nat → α) :
+    augment x a a q = none :=
+  augmentO_zero_components x a _ h0
+
+/-- The hypothesis `1 ≤ components` of `augment_mean_cov` is necessary: a well-formed 0-component
+    mixture of dimension 2 (`GaussianMixture(0, 2)`) augmented with a 1 × 1 matrix stops in the
+    assertion — as a function and as a step of a pool (the real code aborts in `block()`); after
+    `resize(2, 2)` the same call succeeds. -/
+theorem augment_zero_components_counterexample :
+    let x : Container Nat := ctorLayout Kind.gm 0 2 0 false
+    WF x ∧ x.components = 0 ∧ augment x 1 1 (fun _ _ => 5) = none ∧
+    (∃ y, resize x 2 2 0 = y ∧ WF y ∧ y.components = 2 ∧ ∃ z, augment y 1 1 (fun _ _ => 5) = some (z, true)) ∧
+    (match step (fun t => if t = 0 then some x else none) (Op.augment 0 1 1 (fun _ _ => 5)) with
+     | Outcome.assert => True
+     | _ => False) := by
+  intro x
+  have hx : WF x := wf_ctorLayout _ _ _ _ _
+  refine ⟨hx, rfl, rfl, ⟨_, rfl, wf_resize x hx 2 2 0 (by decide), resize_components_eq x 2 2 0, ?_⟩, ?_⟩
+  · obtain ⟨z, hz, _⟩ := augment_mean_cov (resize x 2 2 0) (wf_resize x hx 2 2 0 (by decide))
+      (by rw [resize_components_eq]; decide) 1 (fun _ _ => 5)
+    exact ⟨z, hz⟩
+  · simp [step, onSlot, x, augment_zero_components (ctorLayout Kind.gm 0 2 0 false : Container Nat) rfl]
+
+/-- Concatenation with an empty particle set: `a += empty` and `empty += a` (accepted operands) both
+    yield exactly the components of `a`, in order — mean column, covariance block, weight, particle
+    state — in a well-formed set with `a`'s component count. -/
+theorem concat_zero_components (x e y : Container α) (hx : WF x) (he : WF e) (hxk : x.kind = Kind.ps)
+    (hek : e.kind = Kind.ps) (h0 : e.components = 0) :
+    (concat x e = some y → WF y ∧ y.components = x.components ∧ y.dimCovariance = x.dimCovariance ∧
+      ∀ i, i < x.components →
+        (∀ r, y.mean.get r (meanBlock y i).1 = x.mean.get r (meanBlock x i).1) ∧
+        (∀ r c, c < x.dimCovariance → y.cov.get r ((covBlock y i).1 + c) = x.cov.get r ((covBlock x i).1 + c)) ∧
+        y.weight.get (weightIndex y i) 0 = x.weight.get (weightIndex x i) 0 ∧
+        (∀ r, y.state.get r (stateBlock y i).1 = x.state.get r (stateBlock x i).1)) ∧
+    (concat e x = some y → WF y ∧ y.components = x.components ∧ y.dimCovariance = x.dimCovariance ∧
+      ∀ i, i < x.components →
+        (∀ r, y.mean.get r (meanBlock y i).1 = x.mean.get r (meanBlock x i).1) ∧
+        (∀ r c, c < x.dimCovariance → y.cov.get r ((covBlock y i).1 + c) = x.cov.get r ((covBlock x i).1 + c)) ∧
+        y.weight.get (weightIndex y i) 0 = x.weight.get (weightIndex x i) 0 ∧
+        (∀ r, y.state.get r (stateBlock y i).1 = x.state.get r (stateBlock x i).1)) := by
+  constructor
+  · intro h
+    obtain ⟨hw, hc, _, _, _, _, _, _, _, hdc, hl, _⟩ := concat_components x e y hx he hxk h
+    exact ⟨hw, by rw [hc, h0, Nat.add_zero], hdc, hl⟩
+  · intro h
+    obtain ⟨hw, hc, _, _, _, _, _, _, _, hdc, _, hr⟩ := concat_components e x y he hx hek h
+    have hreq := (concat_requires e x).1 ⟨y, h⟩
+    have hdd : x.dimCovariance = e.dimCovariance := by
+      have := hreq.2.2.1.1
+      rw [hx.covRows, he.covRows] at this
+      exact this
+    refine ⟨hw, by rw [hc, h0, Nat.zero_add], by rw [hdc, hdd], ?_⟩
+    intro i hi
+    obtain ⟨m, cv, w, st⟩ := hr i hi
+    rw [h0, Nat.zero_add] at m cv w st
+    exact ⟨m, fun r c hcc => cv r c (by rw [← hdd]; exact hcc), w, st⟩
+
 /-! ### Non-vacuity: the hypotheses above are satisfiable on non-trivial instances -/
 
 /-- A quaternion particle set with 3 particles, 2 linear and 1 circular entries, augmented by a
@@ -633,8 +728,8 @@ theorem resize_nonconservative_contents (s : Sto α) (r c : Nat) (init : Option 
 example : ∃ y : Container Nat, augment (ctorLayout Kind.ps 3 2 1 true) 2 2 (fun i j => i + 2 * j) = some (y, true) ∧
     WF y ∧ y.dim = 8 ∧ y.dimCovariance = 7 ∧ y.dimNoise = 2 ∧ y.mean.rows = 8 ∧ y.cov.cols = 21 ∧
     y.state.rows = 6 ∧ y.state.cols = 3 := by
-  have hx : WF (ctorLayout Kind.ps 3 2 1 true : Container Nat) := wf_ctorLayout _ _ _ _ _ (by decide)
-  obtain ⟨y, hy, hw, hk, hkind, _, _, _, _, hn, hd, hdc, _, hs, _⟩ := augment_mean_cov _ hx 2 (fun i j => i + 2 * j)
+  have hx : WF (ctorLayout Kind.ps 3 2 1 true : Container Nat) := wf_ctorLayout _ _ _ _ _
+  obtain ⟨y, hy, hw, hk, hkind, _, _, _, _, hn, hd, hdc, _, hs, _⟩ := augment_mean_cov _ hx (by decide) 2 (fun i j => i + 2 * j)
   refine ⟨y, hy, hw, by rw [hd]; rfl, by rw [hdc]; rfl, by rw [hn]; rfl, by rw [hw.meanRows, hd]; rfl,
     by rw [hw.covCols, hdc, hk]; rfl, by rw [hs]; rfl, by rw [hs]; rfl⟩
 
@@ -642,9 +737,9 @@ example : ∃ y : Container Nat, augment (ctorLayout Kind.ps 3 2 1 true) 2 2 (fu
     accepted by `+=`; sets of different total size are refused (the assertion). -/
 example : (∃ y, concat (ctorLayout Kind.ps 2 2 1 false : Container Nat) (ctorLayout Kind.ps 3 1 2 false) = some y) ∧
     ¬ (∃ y, concat (ctorLayout Kind.ps 2 2 1 false : Container Nat) (ctorLayout Kind.ps 3 2 2 false) = some y) := by
-  have h1 : WF (ctorLayout Kind.ps 2 2 1 false : Container Nat) := wf_ctorLayout _ _ _ _ _ (by decide)
-  have h2 : WF (ctorLayout Kind.ps 3 1 2 false : Container Nat) := wf_ctorLayout _ _ _ _ _ (by decide)
-  have h3 : WF (ctorLayout Kind.ps 3 2 2 false : Container Nat) := wf_ctorLayout _ _ _ _ _ (by decide)
+  have h1 : WF (ctorLayout Kind.ps 2 2 1 false : Container Nat) := wf_ctorLayout _ _ _ _ _
+  have h2 : WF (ctorLayout Kind.ps 3 1 2 false : Container Nat) := wf_ctorLayout _ _ _ _ _
+  have h3 : WF (ctorLayout Kind.ps 3 2 2 false : Container Nat) := wf_ctorLayout _ _ _ _ _
   constructor
   · rw [concat_defined _ _ h1 h2 rfl rfl]; exact ⟨rfl, rfl, rfl⟩
   · rw [concat_defined _ _ h1 h3 rfl rfl]
@@ -658,5 +753,19 @@ example : (run (α := Nat)
      Op.augment 0 2 2 (fun i j => i + j), Op.resize 0 3 1 1, Op.copy 1 0, Op.concatAssign 0 1,
      Op.concatPlus 2 0 1]).2 = false := by
   decide
+
+/-- Zero components: an empty quaternion particle set concatenated (either way round) with a
+    3-particle set of the same layout is accepted, and a run that constructs an empty set, fills it,
+    resizes it to 2 and back to 0, copies, concatenates with non-empty sets and writes a weight ends
+    without assertion, while augmenting an empty mixture stops the run. -/
+example : (∃ y, concat (ctorLayout Kind.ps 0 2 1 true : Container Nat) (ctorLayout Kind.ps 3 2 1 true) = some y) ∧
+    (∃ y, concat (ctorLayout Kind.ps 3 2 1 true : Container Nat) (ctorLayout Kind.ps 0 2 1 true) = some y) ∧
+    (run (α := Nat)
+      [Op.ctorLayout 0 Kind.ps 0 1 1 true, Op.fill 0 (fun s c i => s + c + i), Op.resize 0 2 1 1, Op.resize 0 0 1 1,
+       Op.copy 1 0, Op.ctorLayout 2 Kind.ps 2 1 1 true, Op.concatAssign 1 2, Op.concatPlus 3 2 0,
+       Op.writeWeight 1 1 9]).2 = false ∧
+    (run (α := Nat) [Op.ctorDim 0 Kind.gm 0 2, Op.augment 0 1 1 (fun _ _ => 1)]).2 = true := by
+  refine ⟨concat_equal_layout _ _ (wf_ctorLayout _ _ _ _ _) (wf_ctorLayout _ _ _ _ _) rfl rfl rfl rfl rfl rfl,
+    concat_equal_layout _ _ (wf_ctorLayout _ _ _ _ _) (wf_ctorLayout _ _ _ _ _) rfl rfl rfl rfl rfl rfl, by decide, by decide⟩
 
 end BFL.Shape
